@@ -52,7 +52,7 @@ type World struct {
 	Gate    func(thread, label string) // optional scheduler gate, called before a data store
 	fresh   map[string]*freshMeta
 	// OnStore is called (under the world lock) after every logged store, with its index in Log
-	OnStore func(k int)
+	OnStore  func(k int)
 	Suppress int // >0: do not emit trace events (still log stores)
 }
 
